@@ -48,6 +48,15 @@ pub trait CapNo<X> {
     fn boxed_send(&self, x: X) -> Result<Box<dyn std::any::Any + Send>, X> {
         Err(x)
     }
+    fn may_cross_threads(&self) -> bool {
+        false
+    }
+    fn boxed_opaque<'a>(&self, x: X) -> Result<Box<dyn Opaque + Send + 'a>, X>
+    where
+        X: 'a,
+    {
+        Err(x)
+    }
 }
 impl<X> CapNo<X> for Cap<X> {}
 
@@ -78,6 +87,18 @@ impl<X: AsMut<Pay>> Cap<X> {
         Some(x.as_mut())
     }
 }
+impl<X: Send> Cap<X> {
+    /// the type may cross threads (no `'static` demanded)
+    pub fn may_cross_threads(&self) -> bool {
+        true
+    }
+    pub fn boxed_opaque<'a>(&self, x: X) -> Result<Box<dyn Opaque + Send + 'a>, X>
+    where
+        X: 'a,
+    {
+        Ok(Box::new(x))
+    }
+}
 impl<X: Send + 'static> Cap<X> {
     pub fn is_send(&self) -> bool {
         true
@@ -93,6 +114,32 @@ thread_local! {
     pub static ABUSE: std::cell::Cell<bool> = const { std::cell::Cell::new(false) };
     /// (probes made, capabilities found) on this thread
     pub static ABUSE_STATS: std::cell::Cell<(u64, u64)> = const { std::cell::Cell::new((0, 0)) };
+}
+
+thread_local! {
+    /// set while the interpreter resolves a position for LendGuard / SwapLent: the leaf-level
+    /// accessors then report where the member guard lives, if its type may cross threads
+    pub static LEND: std::cell::Cell<bool> = const { std::cell::Cell::new(false) };
+    /// (address of the member guard, type tag)
+    pub static LENT: std::cell::Cell<Option<(usize, u8)>> = const { std::cell::Cell::new(None) };
+}
+pub fn lending() -> bool {
+    LEND.with(|a| a.get())
+}
+pub fn note_lent(ptr: usize, tag: u8) {
+    LENT.with(|l| l.set(Some((ptr, tag))));
+}
+
+/// `&mut guard` of a member may be handed to another thread exactly if the guard type is Send
+#[macro_export]
+macro_rules! maybe_lend {
+    ($g:expr, $ty:ty, $tag:expr) => {{
+        #[allow(unused_imports)]
+        use $crate::caps::CapNo as _;
+        if $crate::caps::lending() && $crate::caps::cap::<$ty>().may_cross_threads() {
+            $crate::caps::note_lent($g as *mut $ty as usize, $tag);
+        }
+    }};
 }
 
 pub fn abusing() -> bool {
